@@ -190,6 +190,54 @@ one_pair (const unsigned char key[8], const unsigned char blk[8], int junk, int 
   if (memcmp (got, want, 8)) viol ("parity", "%s: flipping the key parity bits changes the result key=%s", cls, hk);
 }
 
+/* The static key is process state: a key set on one thread is the key a later
+   encrypt on another thread uses (the threads are ordered by create/join, so
+   there is no concurrency here - only a history spread over two threads).  */
+#include <pthread.h>
+struct xt { int op; char k64[64]; char b64[64]; };
+static void *
+xt_run (void *a)
+{
+  struct xt *x = a;
+  if (x->op == 0) p_setkey (x->k64);
+  else p_encrypt (x->b64, x->op == 2);
+  return 0;
+}
+
+static void
+cross_thread_pair (const unsigned char key[8], const unsigned char blk[8], int dir)
+{
+  struct xt x;
+  unsigned char want[8], got[8];
+  char hk[17], hb[17];
+  pthread_t t;
+  hex8 (hk, key); hex8 (hb, blk);
+  ref_des (key, blk, want, 0);
+  spread (x.k64, key, 0);
+  spread (x.b64, blk, 0);
+  if (dir == 0)
+    {
+      /* key set here, used on a worker */
+      p_setkey (x.k64);
+      x.op = 1;
+      if (pthread_create (&t, 0, xt_run, &x)) return;
+      pthread_join (t, 0);
+    }
+  else
+    {
+      /* key set on a worker that has exited, used here */
+      x.op = 0;
+      if (pthread_create (&t, 0, xt_run, &x)) return;
+      pthread_join (t, 0);
+      p_encrypt (x.b64, 0);
+    }
+  gather (got, x.b64);
+  n_cmp++;
+  if (memcmp (got, want, 8))
+    viol ("static-key-not-process-wide", "%s: encrypt does not use the key of the preceding setkey key=%s block=%s",
+          dir ? "setkey on a worker thread, encrypt on the main thread" : "setkey on the main thread, encrypt on a worker thread", hk, hb);
+}
+
 static int
 cmd_api (long n)
 {
@@ -215,6 +263,13 @@ cmd_api (long n)
       memcpy (key, &a, 8); memcpy (blk, &b, 8);
       one_pair (key, blk, (int) (i & 1), (i % 16) == 0 ? (int) (1 + (i & 16) / 16) : 0, "random");
     }
+  for (long i = 0; i < 64; i++)
+    {
+      uint64_t a = rnd (), b = rnd ();
+      memcpy (key, &a, 8); memcpy (blk, &b, 8);
+      cross_thread_pair (key, blk, (int) (i & 1));
+    }
+  printf ("CLS api cross-thread-history\n");
   printf ("CLS api random\nCLS api interleaved\n");
   printf ("STAT {\"comparisons\": %ld, \"grid_pairs\": 16384, \"random_pairs\": %ld}\n", n_cmp, n);
   return n_viol ? 1 : 0;
